@@ -1,4 +1,5 @@
 import DarkluaModel.C19.Model
+import DarkluaModel.C19.Lemmas
 /-!
 C19 — "Configurations are read strictly and round-trip without loss": the property theorems.
 
@@ -682,6 +683,17 @@ example : lossless
       apply := ["src/**"], skip := [] } = true := by decide
 /-- the F22 witness is outside H₁₉ -/
 example : lossless f22Config = false := by decide
+
+/-- **Round trip of every accepted configuration inside H₁₉** — no other hypothesis: whatever
+`deserializeConfig` accepts is well formed (`deserializeConfig_wf`, Lemmas.lean). -/
+theorem roundtrip_accepted (ext : Ext) (j : Json) (c : Config) (h : deserializeConfig ext j = .ok c)
+    (hl : lossless c = true) : deserializeConfig ext (serializeConfig c) = .ok c :=
+  roundtrip_partial ext c (deserializeConfig_wf ext j c h) hl
+
+example : (okOf (deserializeConfig allOk (.obj [("rules", .arr [.obj [("rule", .str "remove_assertions"),
+      ("preserve_arguments_side_effects", .bool false), ("apply_to_files", .str "src/a.lua"),
+      ("skip_files", .arr [.str "x", .str "y"])]]), ("generator", .str "dense")]))).map lossless = some true := by
+  decide
 
 /-- **What watch mode needs** (inside H₁₉): two configurations with the same serialisation are the same
 configuration — so configurations that differ in any rule, parameter or filter never serialise alike. -/
